@@ -34,6 +34,7 @@ def step (s : St) : List String → St × String
   | ["setrate", deal, cur, r] => match nat? r with
     | some r => okCfg s (setRate s.cfg deal cur r)
     | none => (s, "bad-op")
+  | ["delrate", deal, cur] => okCfg s (deleteRate s.cfg deal cur)
   | ["setlimits", deal, cur, mn, mx] => match nat? mn, nat? mx with
     | some mn, some mx => okCfg s (setLimits s.cfg deal cur mn mx)
     | _, _ => (s, "bad-op")
@@ -51,6 +52,19 @@ def step (s : St) : List String → St × String
       | some f => s!"{f}"
       | none => "err")
     | none => (s, "bad-op")
+  -- QueryGetFeeTransfer: the fee a transfer between two addresses would be charged
+  | ["feetransfer", f, t, a] => match nat? a with
+    | some a =>
+      if s.cfg.feeSet ∧ (s.cfg.feeAddr = none ∨ s.cfg.feeCur = "") then (s, "err")
+      else match s.cfg.feeAddr with
+        | none => (s, "err")
+        | some fa =>
+          match calcTransferFee s.cfg a (s.uid f) (s.uid t) with
+          | none => (s, "err")
+          | some fee =>
+            let cur := if fee > 0 then s.cfg.feeCur else s.cfg.symbol
+            (s, s!"{fee}/{cur}/{fa}")
+    | none => (s, "bad-op")
   | ["bal"] =>
     (s, ",".intercalate (names.map (fun n => s!"{n}={s.tok n}/" ++ "/".intercalate (curs.map (fun c => toString (s.alw n c))))))
   | _ => (s, "bad-op")
@@ -60,10 +74,10 @@ def machine : Machine := ⟨St, init, step⟩
 def clause : List String → String
   | "transfer" :: _ => "transfer_effect"
   | "bal" :: _ => "balances_exact"
-  | "predict" :: _ => "fee_formula"
+  | "predict" :: _ | "feetransfer" :: _ => "fee_formula"
   | "buy" :: _ => "buy_effect"
   | "buyback" :: _ => "buyBack_effect"
-  | "setfee" :: _ | "setrate" :: _ | "setlimits" :: _ => "setter_validation"
+  | "setfee" :: _ | "setrate" :: _ | "setlimits" :: _ | "delrate" :: _ => "setter_validation"
   | _ => "setup"
 
 def judge : Machine := judgeOf machine clause
